@@ -356,6 +356,9 @@ class IkeSa(object):
     def process_message(self, data):
         # parse the whole message (including encrypted data)
         message = Message.parse(data, header_only=False, crypto=self.peer_crypto)
+        # keep the octets as they were received: they (not a re-serialisation of the parsed message) are what the
+        # AUTH payloads sign (RFC 7296 2.15)
+        message.received_data = bytes(data)
         self.log_message(message, data, send=False)
 
         # check the role the sender claims to have corresponds with what we think about ourselves
@@ -524,7 +527,7 @@ class IkeSa(object):
         self.state = IkeSa.State.INIT_RES_SENT
 
         # store messages for later authentication
-        self.ike_sa_init_req_data = request.to_bytes()
+        self.ike_sa_init_req_data = request.received_data
         self.ike_sa_init_res_data = response.to_bytes()
 
         # return response
@@ -715,7 +718,7 @@ class IkeSa(object):
         self.process_ike_sa_negotiation_response(response, self.request.get_payload(Payload.Type.NONCE).nonce)
 
         # save the message for later authentication
-        self.ike_sa_init_res_data = response.to_bytes()
+        self.ike_sa_init_res_data = response.received_data
 
         # return IKE_AUTH request callback
         return self.generate_ike_auth_request()
